@@ -179,7 +179,7 @@ class MyPyAstVisitor:
                         )
                 else:
                     upper_bound = generic_type.upper_bound
-                    if upper_bound.__str__() != "builtins.object":
+                    if not _is_builtins_object(upper_bound):
                         variance_values = self.mypy_type_to_abstract_type(upper_bound)
 
                 type_parameters.append(
@@ -1044,7 +1044,7 @@ class MyPyAstVisitor:
         elif isinstance(mypy_type, mp_types.TypeVarType):
             upper_bound = mypy_type.upper_bound
             type_ = None
-            if upper_bound.__str__() != "builtins.object":
+            if not _is_builtins_object(upper_bound):
                 type_ = self.mypy_type_to_abstract_type(upper_bound)
 
                 if mypy_type.name == "Self":
@@ -1323,6 +1323,12 @@ class MyPyAstVisitor:
                                 #   2. Else if it has no alias and is not internal
                                 return True
         return None
+
+
+def _is_builtins_object(mypy_type: mp_types.Type) -> bool:
+    # The string representation of mypy types differs between mypy versions ("builtins.object" vs. "object")
+    type_info = getattr(mypy_type, "type", None)
+    return getattr(type_info, "fullname", "") == "builtins.object"
 
 
 def result_name_generator() -> Generator:
